@@ -264,6 +264,11 @@ macro_rules | `(tactic| ev_step) => `(tactic| with_reducible apply decStreamWind
 
 -- ===================================================================== recv.rs
 
+theorem notifyPushIfRecvEnded_ev (h : Evolves P N a s.store) (id : Nat) :
+    Evolves P N a (s.notifyPushIfRecvEnded id).store := by
+  unfold Streams.notifyPushIfRecvEnded; ev
+macro_rules | `(tactic| ev_step) => `(tactic| with_reducible apply notifyPushIfRecvEnded_ev)
+
 theorem releaseConnectionCapacity_ev (h : Evolves P N a s.store) (c : Nat) (u : Bool) :
     Evolves P N a (s.releaseConnectionCapacity c u).store := by
   unfold Streams.releaseConnectionCapacity; ev
